@@ -17,7 +17,8 @@ RULE = ("collections of 1..6 rules drawn from {ok single condition, ok two condi
         "placeholder, unrenderable value, missing detection in condition} in every position (all arrangements up to "
         "length 3 exhaustively, sampled beyond) x pipeline on/off x error collection on/off; distinct = distinct "
         "(arrangement, pipeline, collect); non-trivial = at least one failing and one succeeding rule"
-        "; x backend variants (not-equals rendering, no in-lists) x a pipeline with an added condition and in-place field/value transformations; plus arrangements of verbatim copies of one rule")
+        "; x backend variants (not-equals rendering, no in-lists) x a pipeline with an added condition and in-place field/value transformations; plus arrangements of verbatim copies of one rule"
+        "; correlation rules over a failing referenced rule (in every order, collecting and not)")
 ASSUMPTIONS = [
     "a backend that lacks a feature raises NotImplementedError, which pySigma deliberately does not collect: failure stages are the four the property names, all Sigma errors",
     "correlation rules are C09/C10's subject; here collections contain detection rules only",
